@@ -136,6 +136,10 @@ def check_qlm(run, pkg, weighted):
     pol = polar_angle(TH, B)
     azi = azimuth_angle(PH, B)
     swapped = polar_angle(PH, B) == "ok" and azimuth_angle(TH, B) == "ok"
+    if pol is None and not swapped:
+        pol = angle_by_evaluation(TH, B, "polar")          # a differing sample direction, or None
+    if azi is None and not swapped:
+        azi = angle_by_evaluation(PH, B, "azimuth")
     run.ob("R-ANGLE", fq, f"{v}:polar", (pol == "ok") if pol is not None else (False if swapped else None), "theta passed to sph_harm_l is the polar angle arccos(z/|r|) of the imaged bond vector",
            show(TH)[:80] if pol in (None, "ok") else pol, witness=None if pol == "ok" else ("azimuth passed as theta and polar as phi" if swapped else pol), loc=loc, sound=True)
     run.ob("R-ANGLE", fq, f"{v}:azimuth", (azi == "ok") if azi is not None else (False if swapped else None), "phi passed to sph_harm_l is the azimuth arctan2(y, x) of the imaged bond vector",
